@@ -23,7 +23,7 @@ import subprocess
 import time
 
 from vlib import pcp
-from vlib.common import HARNESS
+from vlib.common import HARNESS, REPO
 from vlib.pcp import Ent, OLD, hx
 from vlib.seqrun import run_batch
 from checks.c12 import SAN_FLAGS, read_const, probe_variant, variant_text
@@ -1476,6 +1476,26 @@ def run(ctx):
         dist["error_stream_variant"] = ("shared by all receivers of the process (static FILE *fp): overlapping _error() calls "
                                         "cross-route" if dist.get("multi_overlapping_errors_cross_routed") else
                                         "per call: overlapping _error() calls keep their own connection")
+        # ---- what the receivers of one process share: the translation unit against Pcp/Statics.lean
+        so = pcp.static_objects(REPO, ctx.scratch)
+        shared_fp = bool(dist.get("multi_overlapping_errors_cross_routed"))
+        ms = pcp.fields(ctx.model("pcp", "statics %d\n" % int(shared_fp))[0])
+        if so is None:
+            ctx.disagreement("pcp statics", "pcp_server.c does not compile on its own", {})
+        else:
+            defs, calls = so
+            want = sorted(ms["defs"].split(","))
+            dist["server_static_objects"] = defs
+            dist["server_process_wide_calls"] = [c for c in calls if c in ms["modelled"].split(",")]
+            if defs != want:
+                ctx.disagreement("pcp statics", "pcp_server.c defines the objects of static storage duration %s; the model of "
+                                 "several receivers in one process (Pcp/Multi.lean, Pcp/Statics.lean) accounts for %s: state "
+                                 "that outlives a call is shared by all rpdcp receiver threads" % (defs, want),
+                                 dict(static_objects=defs, model=want))
+            bad = [c for c in calls if c in ms["forbidden"].split(",")]
+            if bad:
+                ctx.disagreement("pcp process-wide calls", "pcp_server.c calls %s: process-wide state the model of several "
+                                 "receivers in one process does not cover" % bad, dict(calls=bad))
         if os.environ.get("VERIF_C11_E2E", "1") != "0":
             run_e2e(ctx, cov, dist)
     cov["distinct_nontrivial"] = len(distinct)
